@@ -298,6 +298,13 @@ def _sites(db, chk, m):
                 okk = okk and rowvar is not None and len(dn) == 1 and next(iter(dn))[0] == "START" and ev is not None and R_def_text(kf, ast.Name(id=ev)) == f"{rowvar}.index"
             chk.ob(rule, "launch-delay edges: from the START of the launch call linked to the kernel (row.index_correlation) to the START of that same kernel (row.index)", okk, where,
                    found=det, accepted=[("row.index_correlation", [("START", "eid")])], why="another source event makes the launch-delay edge join unrelated events")
+        if ty == "DEPENDENCY" and isinstance(b["src"], ast.Name):
+            outer = m.func("CPGraph._construct_graph_from_call_stack")
+            inits = [st for st in outer.body if isinstance(st, (ast.Assign, ast.AnnAssign)) and H.name_id(st.targets[0] if isinstance(st, ast.Assign) else st.target) == b["src"].id]
+            ok_init = len(inits) == 1 and isinstance(inits[0].value, ast.Constant) and inits[0].value.value is None
+            chk.ob(rule, "dependency edges: the chain of top-level operators starts EMPTY for every thread (the source is only ever the end node of an earlier top-level op of the same traversal)", ok_init, m.loc(outer),
+                   found=[ast.unparse(x) for x in inits], accepted=f"{b['src'].id} = None at the start of each call-stack traversal",
+                   why="a node carried over from the previously processed thread adds a dependency between unrelated threads, possibly backward in time (cycle with zero-weight launch edges)")
         if ty == "KERNEL_KERNEL_DELAY":
             keys_ok = all("@key " in s[1] and "read with key" not in s[1] for s in src) and bool(src)
             chk.ob(rule, "kernel-to-kernel edges: from the END of the previous kernel stored under the SAME stream key", keys_ok, where, found=sorted(src), accepted="last_node[stream] written and read with the row's stream",
